@@ -35,14 +35,15 @@ def P(pid, targets, bounded, text, note=None, level="proof", unverified=()):
                      unverified=list(unverified))
 
 
-P("C01", [f"{UT}:rlencode", f"{CR}:index_pixels", f"{CR}:create_cooler", f"{CR}:create", f"{CR}:write_pixels", f"{TOP}:get"], "bounded/C01.py",
+P("C01", [f"{UT}:rlencode", f"{CR}:index_pixels", f"{CR}:create_cooler", f"{CR}:create", f"{CR}:write_pixels", f"{TOP}:get",
+          f"{API}:pixels", f"{API}:Cooler.pixels"], "bounded/C01.py",
   "Proof core shared with C02 (index construction for every pixel column and chunking). create() itself is verified as a coordinator over a ghost operation log (every helper and h5py call replaced by a recording stub; 41 configurations of mode/append/root-or-nested target/check flags/input forms/single-cell append, symbolic paths, counts and symmetric flag): the caller's "
   "pixels are what is validated and streamed, once, into <group>/pixels; the callers' bins are what is written; columns "
   "are the ids followed by the requested value columns with the caller's dtypes overriding the defaults; assembly and "
   "metadata reach the info record verbatim. The write/read round trip through real HDF5 files is covered by the "
-  "bounded tier (all small matrices x input forms x dtypes x metadata documents). write_pixels (the append loop every producer goes through) is verified with ghost dataset contents for EVERY number of chunks and chunk lengths: each pixel column ends up as the concatenation of that column over the chunks in order, its length is the returned nnz (pre-allocated rows dropped when nothing arrived), the returned total is the sum of the count column (integer and float configurations), only the target group of the target file is touched, always opened r+.",
+  "bounded tier (all small matrices x input forms x dtypes x metadata documents). write_pixels (the append loop every producer goes through) is verified with ghost dataset contents for EVERY number of chunks and chunk lengths: each pixel column ends up as the concatenation of that column over the chunks in order, its length is the returned nnz (pre-allocated rows dropped when nothing arrived), the returned total is the sum of the count column (integer and float configurations), only the target group of the target file is touched, always opened r+. The read side: Cooler.pixels() is a selector over nnz rows whose slicer performs one read of the collection's own pixels group with the caller's bounds, fields and join flag; api.pixels reads exactly rows [lo, hi) of the requested columns (default: ids first, then every stored value column once) and, when joining, annotates them with the whole bin table (coordinators; get has its own contract).",
   unverified=["write_bins / write_chroms / write_info bodies (HDF5 I/O; stubs in the create contract)",
-              "ArrayLoader.__iter__", "api.pixels read path", "pandas sort_values (assumed: sorts by both keys)"],
+              "ArrayLoader.__iter__", "pandas sort_values (assumed: sorts by both keys)"],
   level="other")
 
 P("C02", [f"{UT}:rlencode", f"{CR}:index_pixels", f"{CR}:index_bins", f"{CR}:create_cooler", f"{CR}:create", f"{CR}:write_pixels"], "bounded/C02.py",
@@ -68,16 +69,19 @@ P("C03", [f"{RQ}:_comes_before", f"{RQ}:_contains", f"{RQ}:arg_prune_partition",
               "the _slice/_fetch closures built by Cooler.matrix (their single calls are covered by the Cooler.matrix contract)"])
 
 P("C04", [f"{RQ}:_region_to_extent", f"{RQ}:region_to_extent", f"{RQ}:region_to_offset", "cooler.api:Cooler.extent",
-           "cooler.api:Cooler.offset", f"{SEL}:RangeSelector1D.fetch", f"{SEL}:RangeSelector2D.fetch",
+           "cooler.api:Cooler.offset", "cooler.api:Cooler.bins._fetch", "cooler.api:Cooler.pixels._fetch", "cooler.api:Cooler.matrix._fetch",
+           f"{SEL}:RangeSelector1D.fetch", f"{SEL}:RangeSelector2D.fetch",
            f"{UT}:parse_region", f"{UT}:get_binsize"], "bounded/C04.py",
   "Proof of the extent arithmetic for all bin tables, chromosomes and ranges (fixed path relative to the C20 "
   "'fixed' predicate, variable path over the searchsorted contract), of parse_region's defaults/bounds/refusals, and "
   "of the public wrappers region_to_extent / region_to_offset / Cooler.extent / Cooler.offset, each checked against "
-  "its callee's contract (modular), under the representation invariant of a Cooler object for the chromosome named.",
+  "its callee's contract (modular), under the representation invariant of a Cooler object for the chromosome named. "
+  "The fetch closures of the three selectors are under contract too (nested functions, the Cooler object as free variable): bins()._fetch returns the C04 extent, "
+  "pixels()._fetch the pixel rows [bin1_offset[i0], bin1_offset[i1]) of that extent, matrix()._fetch the extents of the first range on the rows and of the "
+  "second range (the first when none is given) on the columns; each refuses exactly what parse_region refuses.",
   note="FDIV64 (float floor/ceil of integer quotients); parse_region_string assumed in the prover (C19 bounded); "
        "Cooler invariant (cached ids/lengths agree with the stored table, recorded bin size truthful) is a precondition.",
-  unverified=["the _fetch closures of Cooler.bins()/pixels()/matrix() (same three calls as Cooler.extent)",
-              "GenomeSegmentation.fetch / bedslice"])
+  unverified=["GenomeSegmentation.fetch / bedslice", "open_hdf5 (assumed: yields the file handle; h5[root] is the collection's group)"])
 
 P("C05", [f"{ING}:_sanitize_pixels", f"{UT}:get_binsize"], "bounded/C05.py",
   "Proof core: the pre-binned-record sanitizer is verified per record for all chunks: one-based shift by exactly one, "
@@ -118,10 +122,14 @@ P("C12", [f"{API}:matrix", f"{API}:Cooler.matrix", f"{RQ}:CSRReader.__call__"], 
 P("C13", [f"{ING}:_validate_pixels", f"{CR}:create", f"{CR}:write_pixels"], "bounded/C13.py", "Proof core: the default validator accepts a chunk iff it has no out-of-range id, no lower-triangle pixel (symmetric mode) and no in-chunk duplicate, raises BadInputError exactly otherwise, and returns the records unchanged (pandas duplicated/sort_values by assumed contract). create() itself is verified as a coordinator over a ghost operation log (every helper and h5py call replaced by a recording stub; 41 configurations of mode/append/root-or-nested target/check flags/input forms/single-cell append, symbolic paths, counts and symmetric flag): the validator is chained onto the caller's pixel stream iff any check is requested, with the bin count and exactly the requested checks (triangularity only in symmetric mode); a refused call opens no file; every write lies inside the target group of the target file; the info record is written once and last, so a stream that fails has left no info record. write_pixels (the append loop every producer goes through) is verified with ghost dataset contents for EVERY number of chunks and chunk lengths: each pixel column ends up as the concatenation of that column over the chunks in order, its length is the returned nnz (pre-allocated rows dropped when nothing arrived), the returned total is the sum of the count column (integer and float configurations), only the target group of the target file is touched, always opened r+. What an interrupted write leaves on disk is covered by the bounded tier (fault injection at every chunk index).", level="other",
   unverified=["what a mid-stream exception leaves on disk (write_pixels is proved for complete streams only)", "is_cooler on the partial file (bounded)"])
 
-P("C14", [f"{SEL}:_IndexingMixin._process_slice", f"{SEL}:RangeSelector1D.__getitem__", f"{SEL}:RangeSelector1D.fetch", f"{TOP}:get"], "bounded/C14.py",
-  "Proof core: slice/scalar normalisation of every table selector for all integer bounds, and the table read (get: rows lo..hi-1 of every requested plain column, labelled lo.., independent of the column selection, Series for a single name); enum decoding, the selectors' glue and annotate "
-  "are covered by the bounded tier.", level="other",
-  unverified=["_tableops.get bytes decoding (astype(U))", "api.annotate (pandas joins)", "the _slice closures of Cooler.chroms()/bins()/pixels()"])
+P("C14", [f"{SEL}:_IndexingMixin._process_slice", f"{SEL}:RangeSelector1D.__getitem__", f"{SEL}:RangeSelector1D.fetch", f"{TOP}:get",
+          f"{API}:Cooler.chroms", f"{API}:Cooler.bins", f"{API}:Cooler.pixels", f"{API}:chroms", f"{API}:bins", f"{API}:pixels"], "bounded/C14.py",
+  "Proof core: slice/scalar normalisation of every table selector for all integer bounds, and the table read (get: rows lo..hi-1 of every requested plain column, labelled lo.., independent of the column selection, Series for a single name). The glue between them is under coordinator contracts: "
+  "Cooler.chroms()/bins()/pixels() build selectors over nchroms/nbins/nnz rows whose slicer performs ONE read of the right table of the collection's own group with the "
+  "caller's fields, bounds, join flag and reader options; api.chroms/bins/pixels read exactly rows [lo, hi) of the caller's fields (default: standard columns first, then every other "
+  "stored column once), api.bins converts an integer chromosome column to the names stored in this collection's chroms/name (codes = the column read) unless convert_enum=False, "
+  "api.pixels(join=True) annotates the rows read with the whole bin table's coordinates.", level="other",
+  unverified=["_tableops.get bytes decoding (astype(U))", "pandas Index.append/drop_duplicates, Categorical.from_codes (assumed by stubs)"])
 
 P("C15", [f"{UT}:parse_cooler_uri", "cooler.fileops:_copy", "cooler.fileops:_is_cooler", "cooler.fileops:is_cooler", f"{CR}:create"], "bounded/C15.py",
   "Proof core: URI splitting for all strings, and the branch logic of fileops._copy (behind cp/mv/ln) over a ghost "
@@ -145,7 +153,7 @@ P("C16", [f"{ING}:_sanitize_pixels", f"{ING}:_validate_pixels", f"{RQ}:FillLower
 P("C17", [f"{CR}:create", f"{CR}:create_scool"], "bounded/C17.py", "Proof core: the per-cell append path of create() (create() itself is verified as a coordinator over a ghost operation log (every helper and h5py call replaced by a recording stub; 41 configurations of mode/append/root-or-nested target/check flags/input forms/single-cell append, symbolic paths, counts and symmetric flag)): a cell's chroms table and its three standard bin columns are hard links to the ROOT tables of the single-cell file named by scool_root_uri (no table is written again), its own extra bin columns - exactly the non-standard columns of the cell's bin table - are stored per cell under <cell>/bins, its pixels, indexes and info are written as for any collection, the root file is never truncated, and append_scool without a root URI is refused. create_scool itself (coordinator, 1..3 cells given in an insertion order different from the sorted one, common or per-cell bin tables): every cell gets exactly one per-cell create at <file>::/cells/<name> with ITS OWN pixels and ITS OWN bin table, appended and linked to this file's root; the root gets the common chroms, the three standard bin columns and a scool info record with ncells = number of cells; the file is created with the caller's mode once; a bins dict with other keys than the cells is refused. (A name containing '/' is stored under its basename: known finding, refuted clause.) Larger cell sets, reading back and listing are covered by the bounded tier.", level="other",
   unverified=["list_scool_cells / is_scool_file", "create_scool for more than 3 cells (the per-cell loop does not depend on the count)", "h5py hard-link semantics (assumed)"])
 
-P("C18", [f"{CR}:_rename_chroms", f"{CR}:rename_chroms", "cooler.api:Cooler._refresh"], "bounded/C18.py",
+P("C18", [f"{CR}:_rename_chroms", f"{CR}:rename_chroms", "cooler.api:Cooler._refresh", "cooler.api:bins"], "bounded/C18.py",
   "Proof core: _rename_chroms over a ghost operation log of the HDF5 group, for all tables, maps and both "
   "chromosome encodings (plus the enum-header-too-large fallback): the only datasets removed or created are "
   "chroms/name and - for an enum column - bins/chrom; chroms/name afterwards holds the old names with the map "
